@@ -117,6 +117,31 @@ Proof.
   destruct (mem_key k stale); destruct (str_eqb k a); reflexivity.
 Qed.
 
+(* ------------------------------------------------------------------ re-keying on load *)
+Lemma keys_rekey : forall b, keys (rekey b) = map norm_key (keys b).
+Proof. intro b. unfold keys, rekey. rewrite !map_map. reflexivity. Qed.
+
+Lemma rekey_stable : forall b, (forall k, In k (keys b) -> stable_key k) -> rekey b = b.
+Proof.
+  induction b as [|[k e] b IH]; intro H; cbn [rekey map fst snd]; auto.
+  fold (rekey b). rewrite IH by (intros k' HI; apply H; right; assumption).
+  rewrite (H k) by (left; reflexivity). reflexivity.
+Qed.
+
+Lemma lookup_rekey_inv : forall k b e, lookup k (rekey b) = Some e ->
+  exists k0, In k0 (keys b) /\ norm_key k0 = k.
+Proof.
+  intros k b e H. apply lookup_In_keys in H. rewrite keys_rekey in H.
+  apply in_map_iff in H. destruct H as [k0 [E HI]]. eauto.
+Qed.
+
+Definition stable_bl (b : baseline) : Prop := forall k, In k (keys b) -> stable_key k.
+Definition ostable (ob : option baseline) : Prop := match ob with Some b => stable_bl b | None => True end.
+Definition stable_results (rs : list result) : Prop := forall r, In r rs -> stable_key (key_of r).
+
+Lemma view_stable : forall ob, ostable ob -> view ob = ob.
+Proof. intros [b|] H; cbn; auto. rewrite rekey_stable; auto. Qed.
+
 Definition olookup (k : key) (ob : option baseline) : option entry :=
   match ob with Some b => lookup k b | None => None end.
 
@@ -477,7 +502,7 @@ Lemma ratchet_no_baseline : forall cli cfg rs ev,
 Proof. intros. unfold handle_baseline_ratchet. destruct (effective_ratchet cli cfg); reflexivity. Qed.
 
 Lemma update_run_disk : forall m we R dirs disk,
-  o_disk (check_step (update_flags m we) R dirs disk) = Some (update_baseline_from_results R m disk).
+  o_disk (check_step (update_flags m we) R dirs disk) = Some (update_baseline_from_results R m (view disk)).
 Proof.
   intros m we R dirs disk. unfold check_step, update_flags, load_for_run. cbn.
   destruct we; destruct disk as [b|]; cbn; unfold update_baseline_from_results;
